@@ -19,7 +19,7 @@ ASSUMPTIONS = ['reference interpreters A and B (ypv/refA.py, ypv/refB.py) implem
                'answer sequences are compared up to the first 60 answers',
                'engine termination bound: 2000 x reference steps + 100000 engine events']
 RULE_ADDED = (' Added after the rounds of independently written changes (DESIGN.md 12.2): ' +
-              "fact tables of 1100-1300 atoms; queries with up to 2200 answers, all compared; lists of 15-129 elements in the templates; a chain-building template (one variable-to-variable link per recursion level, up to 40 levels); record-style predicates of arity 9-16 with repeated variables at direct argument positions; confusable twins (f(X) next to f('X')).")
+              "fact tables of 1100-1300 atoms; queries with up to 1200 answers, all compared; lists of 15-129 elements in the templates; a chain-building template (one variable-to-variable link per recursion level, up to 40 levels); record-style predicates of arity 9-16 with repeated variables at direct argument positions; confusable twins (f(X) next to f('X')).")
 RULE = RULE + RULE_ADDED
 
 
@@ -113,7 +113,7 @@ def big_table_case(rng):
 
 def many_answers_case(rng):
     """queries with hundreds to thousands of answers, all of them compared (the usual cap is 60)"""
-    k = rng.choice([12, 33, 45])
+    k = rng.choice([12, 24, 33])
     cl = [(C('num', I(i)), ('true',)) for i in range(k)]
     cl.append((C('pairs', V('X'), V('Y')), ('and', ('call', C('num', V('X'))), ('call', C('num', V('Y'))))))
     cl.append((C('nat', A('z')), ('true',)))
@@ -122,7 +122,7 @@ def many_answers_case(rng):
     cl.append((C('pre', NIL, V('_')), ('true',)))
     cl.append((C('pre', L([V('H')], V('T')), L([V('H')], V('R'))), ('call', C('pre', V('T'), V('R')))))
     q = rng.choice([('pairs', [V('Q0'), V('Q1')]), ('pairs', [V('Q0'), V('Q0')]), ('nat', [V('Q0')]), ('upto', [V('Q0'), V('Q1')])])
-    return cl, q[0], q[1], (150 if q[0] == 'nat' else 2200)
+    return cl, q[0], q[1], (150 if q[0] == 'nat' else 1200)
 
 
 def wide_case(rng):
